@@ -29,6 +29,9 @@ type Config struct {
 	Hostile int
 	// NoParser drops the parser section altogether (lexer-only grammar).
 	NoParser bool
+	// NoMidRule avoids mid-rule actions (they crash the Bison export at the time of
+	// writing; C18 falls back to this to get its grammars through).
+	NoMidRule bool
 	// NoUserCode avoids semantic actions, lexer code and %% templates (used by
 	// the Bison reader check to keep braces out of the way is NOT needed; this
 	// exists for minimisation only).
@@ -738,7 +741,7 @@ func (g *gen) seq(c *ctx, avoid map[string]bool, n int) frag {
 			nodes, fresh = u.nodes, u.fresh
 		}
 		parts = append(parts, u.text)
-		if !c.noAction && !g.cfg.NoUserCode && i+1 < n && !c.rule.marker && g.p(14) {
+		if !c.noAction && !g.cfg.NoUserCode && !g.cfg.NoMidRule && i+1 < n && !c.rule.marker && g.p(14) {
 			c.rule.mid = true
 			parts = append(parts, "{ midRule() }")
 			g.tmplOnce("onAfterParser", "func midRule() {}")
